@@ -194,18 +194,35 @@ def _canon_seq(ns):
     return [seq, infos, int(ns.source_info.parser), int(ns.source_info.encoding_type)]
 
 
-def _call(f):
-    """-> ['OK', canon, wf_violations] | ['EXC', class, message-prefix]"""
+_KEEP = [None]
+
+
+def _call(f, keep=False):
+    """-> ['OK', canon, wf_violations] | ['EXC', class, message-prefix].
+    The class name 'MIDIConversionError' is reported only for exactly note_seq.midi_io.MIDIConversionError."""
+    from note_seq import midi_io
     try:
         ns = f()
     except BaseException as e:  # noqa: the property is about every exception class
         if isinstance(e, (KeyboardInterrupt, SystemExit)):
             raise
-        return ['EXC', type(e).__name__, str(e)[:160]]
+        name = type(e).__name__
+        if name == 'MIDIConversionError' and type(e) is not midi_io.MIDIConversionError:
+            name = 'OTHER-CLASS-NAMED-MIDIConversionError'
+        return ['EXC', name, str(e)[:160]]
     from note_seq.protobuf import music_pb2
     if not isinstance(ns, music_pb2.NoteSequence):
         return ['EXC', 'NOT-A-NOTESEQUENCE', type(ns).__name__]
+    if keep:
+        _KEEP[0] = ns
     return ['OK', _canon_seq(ns), wf_violations(ns)]
+
+
+def _digest(r, with_message=False):
+    """Stable digest of a call result; messages (addresses stripped) only for same-process comparisons."""
+    import re
+    c = ['OK', r[1], r[2]] if r[0] == 'OK' else ['EXC', r[1]] + ([re.sub(r'0x[0-9a-fA-F]+', '0x', r[2])] if with_message else [])
+    return hashlib.sha1(json.dumps(c, sort_keys=True).encode()).hexdigest()[:16]
 
 
 def _is_int(x):
@@ -290,24 +307,141 @@ def _build_pm(rec):
     return pm
 
 
+_IMPORT_MAX_TICK = [None]     # pretty_midi.pretty_midi.MAX_TICK right after `import note_seq.midi_io` (evidence only)
+
+
+class _inf_tick(object):
+    """Harness-side uses of pretty_midi (own parse, reading get_tempo_changes) run with MAX_TICK = inf so that they never
+    depend on the module state earlier calls left behind (RLIMIT_AS bounds the tick table instead); the state is put back
+    exactly as found, so leaks in note_seq itself stay observable through its results."""
+    def __enter__(self):
+        import pretty_midi
+        self.was = pretty_midi.pretty_midi.MAX_TICK
+        pretty_midi.pretty_midi.MAX_TICK = float('inf')
+
+    def __exit__(self, *a):
+        import pretty_midi
+        pretty_midi.pretty_midi.MAX_TICK = self.was
+        return False
+
+
+def _own_parse(data):
+    import io
+    import pretty_midi
+    with _inf_tick():
+        return pretty_midi.PrettyMIDI(io.BytesIO(data))
+
+
+def _record(pm):
+    with _inf_tick():
+        return _pm_record(pm)
+
+
+def _object_checks(pm, out, first):
+    """Conversion of a PrettyMIDI OBJECT: argument not modified (also when it raises), a second conversion after the first
+    result has been mutated gives the same result, the first result is not changed by the second call."""
+    from note_seq import midi_io
+    before, _ = _record(pm)
+    _KEEP[0] = None
+    obj = _call(lambda: midi_io.midi_to_note_sequence(pm), keep=True)
+    ns1 = _KEEP[0]
+    after, _ = _record(pm)
+    prob = []
+    if after != before:
+        prob.append('argument-object-modified')
+    if ns1 is not None:
+        snap = ns1.SerializeToString(deterministic=True)
+        obj2 = _call(lambda: midi_io.midi_to_note_sequence(pm))
+        if ns1.SerializeToString(deterministic=True) != snap:
+            prob.append('earlier-result-changed-by-later-call')
+        # mutate the first result, convert again
+        del ns1.notes[:]
+        del ns1.tempos[:]
+        ns1.total_time = -1.0
+        ns1.ticks_per_quarter = 1
+        obj3 = _call(lambda: midi_io.midi_to_note_sequence(pm))
+        if obj2 != obj or obj3 != obj:
+            prob.append('object-conversion-not-repeatable')
+        after2, _ = _record(pm)
+        if after2 != before:
+            prob.append('argument-object-aliases-result')
+    _KEEP[0] = None
+    if prob:
+        out['state'] = sorted(set(out.get('state', []) + prob))
+    return obj
+
+
+def _file_call(data, name_kind):
+    import tempfile
+    from note_seq import midi_io
+    prefix, suffix = [('c16-', '.mid'), ('c16 sp\u00e9ci\u00e5l \u97f3-', '.MID'), ('c16-', ''), ('c16.-', '.midi.bak')][name_kind % 4]
+    fd, path = tempfile.mkstemp(prefix=prefix, suffix=suffix)
+    try:
+        with os.fdopen(fd, 'wb') as f:
+            f.write(data)
+        return _call(lambda: midi_io.midi_file_to_note_sequence(path))
+    finally:
+        try:
+            os.unlink(path)
+        except OSError:
+            pass
+
+
+def _work_order(req):
+    """Several different files decoded in one process in the given order, then in a shuffled order, with every returned
+    sequence of the first pass kept alive and re-observed afterwards."""
+    import random
+    from note_seq import midi_io
+    datas = [bytes.fromhex(h) for h in req['input']['hexes']]
+    rng = random.Random(req['input']['seed'])
+    first, alive = [], []
+    for d in datas:
+        _KEEP[0] = None
+        r = _call(lambda: midi_io.midi_to_note_sequence(d), keep=True)
+        first.append(r)
+        alive.append((_KEEP[0], _KEEP[0].SerializeToString(deterministic=True) if _KEEP[0] is not None else None))
+    _KEEP[0] = None
+    mism = []
+    order = list(range(len(datas)))
+    for pas in range(2):
+        rng.shuffle(order)
+        for i in order:
+            if pas == 1 and i % 3 == 0:
+                r = _file_call(datas[i], i)
+            else:
+                r = _call(lambda: midi_io.midi_to_note_sequence(datas[i]))
+            if _digest(r, True) != _digest(first[i], True):
+                mism.append([i, first[i][:2] if first[i][0] == 'EXC' else ['OK'], r[:3] if r[0] == 'EXC' else ['OK'], pas])
+    changed = [i for i, (ns, snap) in enumerate(alive) if ns is not None and ns.SerializeToString(deterministic=True) != snap]
+    return {'op': 'order',
+            'results': [[r[0], r[1] if r[0] == 'EXC' else '', r[2] if r[0] == 'OK' else [], _digest(r)] for r in first],
+            'mismatches': mism[:5], 'alive_changed': changed[:5]}
+
+
 def _work(req):
     import io
-    import tempfile
     import pretty_midi
     from note_seq import midi_io
     op = req['op']
     out = {'op': op}
+    if op == 'order':
+        return _work_order(req)
     if op == 'pm':
         pm = _build_pm(req['input'])
-        out['res'] = _call(lambda: midi_io.midi_to_note_sequence(pm))
+        out['res'] = _object_checks(pm, out, True)
         out['parsed'] = True
         out['pm'] = req['input']
         out['types'] = []
         return out
-    data = bytes.fromhex(req['input']['hex'])
-    out['res'] = _call(lambda: midi_io.midi_to_note_sequence(data))
+    inp = req['input']
+    data = bytes.fromhex(inp['hex'])
+    _KEEP[0] = None
+    out['res'] = _call(lambda: midi_io.midi_to_note_sequence(data), keep=True)
+    ns_first = _KEEP[0]
+    snap_first = ns_first.SerializeToString(deterministic=True) if ns_first is not None else None
+    _KEEP[0] = None
     try:
-        pm = pretty_midi.PrettyMIDI(io.BytesIO(data))
+        pm = _own_parse(data)
     except BaseException as e:  # noqa
         if isinstance(e, (KeyboardInterrupt, SystemExit)):
             raise
@@ -316,22 +450,35 @@ def _work(req):
         pm = None
     if pm is not None:
         out['parsed'] = True
-        out['pm'], out['types'] = _pm_record(pm)
-        obj = _call(lambda: midi_io.midi_to_note_sequence(pm))
+        out['pm'], out['types'] = _record(pm)
+        obj = _object_checks(pm, out, False)
         out['obj'] = 'same' if obj == out['res'] else obj
         del pm
-    if req['input'].get('file'):
-        fd, path = tempfile.mkstemp(prefix='c16-', suffix='.mid')
+    if inp.get('file'):
+        fres = _file_call(data, len(data))
+        out['file'] = 'same' if fres == out['res'] else fres
+    if inp.get('repeat'):
+        # (B)(i): the same argument twice in one process, after other calls happened in between
+        rres = _call(lambda: midi_io.midi_to_note_sequence(data))
+        out['repeat'] = 'same' if rres == out['res'] else rres
+    if inp.get('twostep') and ns_first is not None:
+        # (C) input that is the OUTPUT of an earlier operation: NoteSequence -> note_seq's own MIDI writer -> decode again
         try:
-            with os.fdopen(fd, 'wb') as f:
-                f.write(data)
-            fres = _call(lambda: midi_io.midi_file_to_note_sequence(path))
-            out['file'] = 'same' if fres == out['res'] else fres
-        finally:
-            try:
-                os.unlink(path)
-            except OSError:
-                pass
+            pm2 = midi_io.note_sequence_to_pretty_midi(ns_first)
+            bio = io.BytesIO()
+            pm2.write(bio)
+            exported = bio.getvalue()
+        except BaseException as e:  # noqa: the export is C03's subject, not C16's
+            if isinstance(e, (KeyboardInterrupt, SystemExit)):
+                raise
+            out['twostep'] = ['EXPORT-FAILED', type(e).__name__]
+            exported = None
+        if exported is not None:
+            r2 = _call(lambda: midi_io.midi_to_note_sequence(exported))
+            r3 = _call(lambda: midi_io.midi_to_note_sequence(pm2))
+            out['twostep'] = [r if r[0] == 'EXC' else ['OK', None, r[2]] for r in (r2, r3)]
+    if ns_first is not None and ns_first.SerializeToString(deterministic=True) != snap_first:
+        out['state'] = sorted(set(out.get('state', []) + ['earlier-result-changed-by-later-call']))
     return out
 
 
@@ -375,6 +522,7 @@ def worker_main():
     import numpy  # noqa
     import pretty_midi  # noqa
     from note_seq import midi_io  # noqa
+    _IMPORT_MAX_TICK[0] = pretty_midi.pretty_midi.MAX_TICK
     resource.setrlimit(resource.RLIMIT_AS, (MEM_LIMIT, MEM_LIMIT))
     for line in sys.stdin:
         line = line.strip()
@@ -489,6 +637,8 @@ def _run_batch():
     q = queue.Queue()
     # expensive cases first so that they overlap with the cheap ones
     todo.sort(key=lambda kc: -len(kc[1]['input'].get('hex', '')) if kc[1]['op'] == 'bytes' else 0)
+    fresh = [kc for kc in todo if kc[1]['op'] == 'order' and kc[1]['input'].get('fresh')]
+    todo = [kc for kc in todo if not (kc[1]['op'] == 'order' and kc[1]['input'].get('fresh'))]
     slow = [kc for kc in todo if kc[1].get('gen', '').startswith('bigtick')]
     rest = [kc for kc in todo if not kc[1].get('gen', '').startswith('bigtick')]
     for kc in slow + rest:
@@ -513,8 +663,21 @@ def _run_batch():
         finally:
             w.stop()
 
+    def fresh_loop(kc):
+        # a group that must start in a process that has not decoded anything yet
+        w = Worker()
+        try:
+            r = w.call({'op': kc[1]['op'], 'input': kc[1]['input']}, timeout=3 * WALL_LIMIT)
+            with lock:
+                _CACHE[kc[0]] = r
+        except Exception as e:  # noqa
+            errors.append(e)
+        finally:
+            w.stop()
+
     n = min(N_WORKERS, max(1, len(todo) // 8))
-    ts = [threading.Thread(target=loop, args=(i == 0,)) for i in range(n)]
+    ts = [threading.Thread(target=fresh_loop, args=(kc,)) for kc in fresh] + \
+        [threading.Thread(target=loop, args=(i == 0,)) for i in range(n)]
     for t in ts:
         t.start()
     for t in ts:
@@ -531,6 +694,14 @@ def _response(case):
         _run_batch()
         if k in _CACHE:
             return _CACHE[k]
+    if case['op'] == 'order' and case['input'].get('fresh'):
+        w = Worker()
+        try:
+            r = w.call({'op': case['op'], 'input': case['input']}, timeout=3 * WALL_LIMIT)
+        finally:
+            w.stop()
+        _CACHE[k] = r
+        return r
     if _SINGLE[0] is None:
         _SINGLE[0] = Worker()
         import atexit
@@ -924,6 +1095,25 @@ def bigtick(rng, ticks, div=480):
     return assemble({'fmt': 0, 'ntrk': 1, 'div': div, 'tracks': [track_bytes(ev)]})
 
 
+def late_tempo(tick, div=480):
+    """A set_tempo far out in time (seed C16-3): get_tempo_changes() -> tick_to_time(tick) runs AFTER the constructor and
+    consults pretty_midi.MAX_TICK again."""
+    ev = [(0, meta(0x51, (500000).to_bytes(3, 'big'))), (tick, meta(0x51, (400000).to_bytes(3, 'big'))),
+          (1, bytes([0x90, 60, 64])), (10, bytes([0x80, 60, 0]))]
+    return assemble({'fmt': 0, 'ntrk': 1, 'div': div, 'tracks': [track_bytes(ev)]})
+
+
+def named_track(name, multi=False, late_name=False):
+    """Track-name meta (FF 03) on a track whose instrument really gets notes (seed C16-4)."""
+    body = [(0, bytes([0xc0, 5])), (0, bytes([0x90, 60, 64])), (10, bytes([0x80, 60, 0]))]
+    nm = [(0, meta(0x03, name))]
+    tr = track_bytes((body[:2] + nm + body[2:]) if late_name else (nm + body))
+    if multi:
+        t0 = track_bytes([(0, meta(0x51, (500000).to_bytes(3, 'big')))])
+        return assemble({'fmt': 1, 'ntrk': 2, 'div': 480, 'tracks': [t0, tr]})
+    return assemble({'fmt': 0, 'ntrk': 1, 'div': 480, 'tracks': [tr]})
+
+
 # ------------------------------------------------------------------ pm-object cases
 def _t(rng):
     return ford(rng.choice([0.0, 0.5, 1.0, 2.25, rng.randint(0, 400) / 8.0, rng.random() * 100, 1e-9, 5e5]))
@@ -962,8 +1152,56 @@ def gen_pm(rng, wild):
 
 
 # ------------------------------------------------------------------ case lists
-def _bcase(b, gen, file=False):
-    return {'op': 'bytes', 'gen': gen, 'input': {'hex': bytes(b).hex(), 'file': bool(file)}}
+def _bcase(b, gen, file=False, repeat=False, twostep=False):
+    inp = {'hex': bytes(b).hex(), 'file': bool(file)}
+    if repeat:
+        inp['repeat'] = True
+    if twostep:
+        inp['twostep'] = True
+    return {'op': 'bytes', 'gen': gen, 'input': inp}
+
+
+def _flags(rng, thorough):
+    """file / repeat / twostep are drawn independently of each other and of the generator class."""
+    return (rng.random() < (0.15 if not thorough else 0.05), rng.random() < (0.15 if not thorough else 0.05),
+            rng.random() < (0.12 if not thorough else 0.05))
+
+
+def fresh_group(variant):
+    """Decoded in a process that has decoded nothing before: first a file that only decodes under note_seq's raised
+    MAX_TICK (set_tempo at tick 1e7), then one file per failure kind, then everything again in shuffled order.  Any module
+    state an error (or a success) leaves behind shows up as a changed result for the same bytes."""
+    T = lambda ev, div=480: assemble({'fmt': 1, 'ntrk': 1, 'div': div, 'tracks': [track_bytes(ev)]})
+    note = [(3, bytes([0x90, 60, 64])), (4, bytes([0x80, 60, 0]))]
+    valid = T([(0, meta(0x58, bytes([3, 2, 24, 8])))] + note)
+    files = [late_tempo(10 ** 7 + variant), valid,
+             T(note, div=0),                                              # ZeroDivisionError in the constructor
+             T([(0x0fffffff, bytes([0xb0, 1, 1]))] * 40),                  # tick > MAX_TICK: ValueError
+             bigtick(None, 0x0fffffff),                                   # MemoryError
+             T([(9, meta(0x51, b'\x06\x00\x00'))] + note, div=0xE728),     # SMPTE: rejected after the constructor
+             T([(0, meta(0x58, bytes([4, 255, 24, 8])))] + note),          # denominator 2^255: after the constructor
+             T([(0, meta(0x59, bytes([8, 0])))] + note),                   # KeySignatureError
+             valid[:-7], b'']                                              # truncated, empty
+    if variant % 2:
+        files = [files[0]] + files[:0:-1]
+    return {'op': 'order', 'gen': 'order-fresh-process', 'input': {'hexes': [f.hex() for f in files], 'seed': 1600 + variant, 'fresh': True}}
+
+
+def order_cases(rng, pool, k):
+    """(B)(ii): groups of different files decoded in one process in shuffled order.  Every group also holds files whose
+    outcome depends on pretty_midi.MAX_TICK (tick counts between the library default 1e7 and note_seq's 1e10)."""
+    small = [c for c in pool if c['op'] == 'bytes' and len(c['input']['hex']) <= 8000 and not c.get('gen', '').startswith('bigtick')]
+    fixed = [bigtick(None, 0x0fffffff).hex(),
+             assemble({'fmt': 0, 'ntrk': 1, 'div': 480, 'tracks': [track_bytes([(0x0fffffff, bytes([0xb0, 1, 1]))] * 40)]}).hex(),
+             bigtick(None, 9 * 10 ** 7).hex()]
+    out = []
+    for _ in range(k):
+        if not small:
+            break
+        hx = [c['input']['hex'] for c in rng.sample(small, min(len(small), rng.randint(6, 14)))] + fixed
+        rng.shuffle(hx)
+        out.append({'op': 'order', 'gen': 'order', 'input': {'hexes': hx, 'seed': rng.randrange(1 << 30)}})
+    return out
 
 
 def corpus():
@@ -977,6 +1215,33 @@ def corpus():
     # denominators: 2^255, 2^31, 2^30
     for p in (255, 31, 30, 32, 63, 64):
         cs.append(_bcase(T([(0, meta(0x58, bytes([4, p, 24, 8])))]), 'corpus-den-2^%d' % p, p == 255))
+    for p in (0, 1, 29, 33, 34, 62, 127, 128, 254):
+        cs.append(_bcase(T([(0, meta(0x58, bytes([4, p, 24, 8])))]), 'corpus-den-2^%d' % p, p == 33, p == 33))
+    # (D) the offending element is not the first one stored / comes after valid ones
+    ok_ts = (0, meta(0x58, bytes([3, 2, 24, 8])))
+    ok_key = (0, meta(0x59, bytes([2, 0])))
+    ok_tempo = (0, meta(0x51, b'\x07\xa1\x20'))
+    note = [(3, bytes([0x90, 60, 64])), (4, bytes([0x80, 60, 0]))]
+    for p in (31, 32, 33, 40, 255):
+        cs.append(_bcase(T([ok_ts, ok_key, (5, meta(0x58, bytes([6, 3, 24, 8])))] + note + [(7, meta(0x58, bytes([4, p, 24, 8]))), ok_ts]),
+                         'corpus-late-den-2^%d' % p, p == 32, True))
+    for sf, mi in ((8, 0), (0xf8, 1), (0, 2)):
+        cs.append(_bcase(T([ok_key, ok_ts] + note + [(9, meta(0x59, bytes([sf, mi]))), ok_key]), 'corpus-late-key-%d-%d' % (sf, mi), sf == 8))
+    cs.append(_bcase(T([ok_tempo, (5, meta(0x51, b'\x06\x00\x00'))] + note + [(9, meta(0x51, b'\x00\x00\x00')), ok_tempo]), 'corpus-late-tempo0', True))
+    cs.append(_bcase(T([ok_ts] + note + [(9, meta(0x58, bytes([0, 2, 24, 8])))]), 'corpus-late-num0'))
+    # (C) track names that are not valid UTF-8, attached to instruments that really have notes
+    for k, nm in enumerate((b'\xff', b'\xe9t\xe9', b'\xc3', b'\xc3\xa9', b'\xed\xa0\x80', b'\x83s\x83A\x83m', b'\x80\x81\xfe\xff',
+                            b'', b'\x00', b'a' * 200, b'\xf0\x9f\x8e\xb9', b'\xf8\x88\x80\x80\x80', b'piano')):
+        cs.append(_bcase(named_track(nm, multi=bool(k % 2), late_name=(k % 3 == 2)), 'corpus-track-name', k % 4 == 0, k % 5 == 0, k % 2 == 0))
+    # set_tempo at an absolute tick >= pretty_midi's default MAX_TICK (1e7)
+    cs.append(_bcase(late_tempo(10 ** 7), 'bigtick-late-tempo-1e7'))
+    cs.append(_bcase(late_tempo(9999999), 'bigtick-late-tempo-1e7-1'))
+    # single-event / zero-length shapes
+    cs.append(_bcase(T([(0, bytes([0x90, 60, 64])), (0, bytes([0x80, 60, 0]))]), 'corpus-zero-length-note', True, True, True))
+    cs.append(_bcase(T([(0, bytes([0x90, 0, 1])), (1, bytes([0x80, 0, 0])), (0, bytes([0x90, 127, 127])), (1, bytes([0x90, 127, 0]))]), 'corpus-range-ends', True, True, True))
+    cs.append(_bcase(T([(0, bytes([0xe0, 0, 0])), (0, bytes([0xe0, 127, 127])), (0, bytes([0x90, 1, 1])), (1, bytes([0x80, 1, 0]))]), 'corpus-bend-ends', False, True, True))
+    cs.append(_bcase(T([(0, bytes([0x90, 60, 64]))]), 'corpus-unclosed-note'))
+    cs.append(_bcase(T([(0, bytes([0x80, 60, 64]))]), 'corpus-spurious-note-off'))
     cs.append(_bcase(T([(0, meta(0x58, bytes([0, 2, 24, 8])))]), 'corpus-num0'))
     cs.append(_bcase(T([(0, meta(0x58, bytes([255, 2, 24, 8])))]), 'corpus-num255'))
     # key signatures beyond 7 accidentals / bad mode
@@ -994,7 +1259,7 @@ def corpus():
     cs.append(_bcase(bigtick(None, 10 ** 8), 'bigtick-1e8'))
     cs.append(_bcase(bigtick(None, 10 ** 6), 'bigtick-1e6'))
     for b in fixtures():
-        cs.append(_bcase(b, 'corpus-fixture', len(b) < 2000))
+        cs.append(_bcase(b, 'corpus-fixture', True, len(b) < 2000, True))
     # constructed objects: one per hypothesis of pm_inv (all must be foreign exceptions => hypotheses necessary)
     z = ford(0.0)
     base = lambda **kw: [kw.get('res', 480), kw.get('tsigs', []), kw.get('keys', []), kw.get('tempos', [[z, ford(120.0)]]), kw.get('insts', [])]
@@ -1013,6 +1278,9 @@ def corpus():
                 base(tsigs=[[z, 2 ** 31, 4]], keys=[[z, 24]]), base(tsigs=[[z, 4, 2 ** 31]], keys=[[z, 24]], res=2 ** 31),
                 base(keys=[[z, 24]], insts=[inst(name=[0xDC00])])):
         cs.append({'op': 'pm', 'gen': 'corpus-pm', 'input': rec})
+    import random as _r
+    cs += order_cases(_r.Random(16), cs, 3)
+    cs.append(fresh_group(0))
     return _register(cs)
 
 
@@ -1047,44 +1315,44 @@ def cases(rng, tier, n=None):
     fx = fixtures()
     for i in range(nb):
         r = rng.random()
-        fileflag = rng.random() < (0.08 if not thorough else 0.03)
+        fileflag, rep, two = _flags(rng, thorough)
         if r < 0.14:
             f = synth(rng)
             b = assemble(f)
             seeds.append(b)
-            cs.append(_bcase(b, 'synth-valid', fileflag))
+            cs.append(_bcase(b, 'synth-valid', fileflag, rep, two))
         elif r < 0.20:
             b = mido_file(rng)
             seeds.append(b)
-            cs.append(_bcase(b, 'mido-valid', fileflag))
+            cs.append(_bcase(b, 'mido-valid', fileflag, rep, two))
         elif r < 0.34:
-            cs.append(_bcase(assemble(synth(rng, {'bad_meta': True, 'extra_meta': rng.randint(1, 4), 'nev': rng.randint(0, 8)})), 'meta-oob', fileflag))
+            cs.append(_bcase(assemble(synth(rng, {'bad_meta': True, 'extra_meta': rng.randint(1, 4), 'nev': rng.randint(0, 8)})), 'meta-oob', fileflag, rep, two))
         elif r < 0.44:
-            cs.append(_bcase(mut_header(rng, synth(rng, {'nev': rng.randint(0, 12)})), 'header-mut', fileflag))
+            cs.append(_bcase(mut_header(rng, synth(rng, {'nev': rng.randint(0, 12)})), 'header-mut', fileflag, rep, two))
         elif r < 0.52:
-            cs.append(_bcase(mut_vlq(rng, synth(rng, {'nev': rng.randint(0, 6)})), 'vlq-mut', fileflag))
+            cs.append(_bcase(mut_vlq(rng, synth(rng, {'nev': rng.randint(0, 6)})), 'vlq-mut', fileflag, rep, two))
         elif r < 0.60:
-            cs.append(_bcase(mut_running(rng, synth(rng, {'nev': rng.randint(0, 6)})), 'running-status', fileflag))
+            cs.append(_bcase(mut_running(rng, synth(rng, {'nev': rng.randint(0, 6)})), 'running-status', fileflag, rep, two))
         elif r < 0.66:
-            cs.append(_bcase(assemble(synth(rng, {'bad_data': rng.choice([0.02, 0.1, 0.5]), 'nev': rng.randint(1, 20)})), 'data-byte-oob', fileflag))
+            cs.append(_bcase(assemble(synth(rng, {'bad_data': rng.choice([0.02, 0.1, 0.5]), 'nev': rng.randint(1, 20)})), 'data-byte-oob', fileflag, rep, two))
         elif r < 0.70:
             # SMPTE / odd divisions on otherwise valid content
             f = synth(rng, {'div': rng.choice([0xE728, 0xE250, 0xE350, 0xE878, 0x8001, 0xFFFF, rng.randint(0x8000, 0xFFFF)]),
                             'nev': rng.choice([0, 0, 2, 10]), 'extra_meta': rng.randint(0, 3)})
-            cs.append(_bcase(assemble(f), 'smpte-division', fileflag))
+            cs.append(_bcase(assemble(f), 'smpte-division', fileflag, rep, two))
         elif r < 0.93:
             src = rng.choice(seeds + fx) if (seeds or fx) else assemble(synth(rng))
             oth = rng.choice(seeds + fx) if (seeds or fx) else None
             b = src
             for _ in range(rng.choice([1, 1, 1, 2, 3])):
                 b = mut_bytes(rng, b, oth)
-            cs.append(_bcase(b, 'byte-mut', fileflag))
+            cs.append(_bcase(b, 'byte-mut', fileflag, rep, two))
         elif r < 0.97:
-            cs.append(_bcase(bytes(rng.randint(0, 255) for _ in range(rng.choice([0, 1, 4, 14, 22, 64, 300]))), 'random-bytes', fileflag))
+            cs.append(_bcase(bytes(rng.randint(0, 255) for _ in range(rng.choice([0, 1, 4, 14, 22, 64, 300]))), 'random-bytes', fileflag, rep, two))
         else:
             hd = header(rng.choice([0, 1]), 1, rng.choice([480, 96]))
             body = bytes(rng.choice([rng.randint(0, 255), 0x00, 0xff, 0x90, 0x3c]) for _ in range(rng.randint(0, 60)))
-            cs.append(_bcase(hd + chunk(b'MTrk', body), 'random-track-body', fileflag))
+            cs.append(_bcase(hd + chunk(b'MTrk', body), 'random-track-body', fileflag, rep, two))
     # allocation hazard: a fixed small number of far-out ticks (cost grows with the tick count on this machine)
     ticks = [2 * 10 ** 6, 0x0fffffff, 3 * 10 ** 8] if not thorough else \
         [2 * 10 ** 6, 5 * 10 ** 6, 10 ** 7, 2 * 10 ** 7, 4 * 10 ** 7, 10 ** 8, 0x0fffffff, 3 * 10 ** 8]
@@ -1098,6 +1366,12 @@ def cases(rng, tier, n=None):
         cs.append({'op': 'pm', 'gen': 'pm-wild' if i % 3 else 'pm-valid', 'input': gen_pm(rng, wild=bool(i % 3))})
     # small-scope sweeps on the implementation side: complete in thorough, sampled in quick
     cs += sweeps(rng, thorough)
+    # several different files per process, shuffled order, results kept alive and re-observed
+    cs += order_cases(rng, cs, 150 if thorough else 10)
+    if thorough:
+        cs += [fresh_group(1), fresh_group(2)]
+        for tk in (10 ** 7 + 1, 12345678):
+            cs.append(_bcase(late_tempo(tk), 'bigtick-late-tempo-%d' % tk))
     if n is not None:
         cs = cs[:n] if n < len(cs) else cs
     return _register(cs)
@@ -1114,6 +1388,8 @@ def impl(case):
     resp = _response(case)
     if 'resource' in resp:
         return ['RESOURCE', resp['resource']]
+    if resp.get('op') == 'order':
+        return ['ORDER', [r[:2] + [r[3]] for r in resp['results']], resp['mismatches'], resp['alive_changed']]
     if resp.get('parsed'):
         return ['PARSED', pm_inv_py(resp['pm']), _res_canon(resp['res'])]
     return ['UNPARSED', _res_canon(resp['res'])]
@@ -1121,7 +1397,7 @@ def impl(case):
 
 def model_input(case):
     resp = _response(case)
-    if 'resource' in resp or not resp.get('parsed') or resp.get('types'):
+    if 'resource' in resp or resp.get('op') == 'order' or not resp.get('parsed') or resp.get('types'):
         return None
     return [1, resp['pm']]
 
@@ -1159,9 +1435,41 @@ def oracle(case, io):
     probe = _STATS.get('probe')
     if probe is not None and probe.get('probe') != PROBE_EXPECT:
         return {'kind': 'protobuf-failure-modes-changed', 'got': probe.get('probe')}
+    if case['op'] == 'order':
+        # the statement on every file of the group, then independence of call history
+        for i, r in enumerate(resp['results']):
+            v = _statement([r[0], r[1], r[2]] if r[0] == 'EXC' else ['OK', None, r[2]], gen, 'bytes', False, 'order[%d]' % i)
+            if v:
+                v['hex'] = case['input']['hexes'][i]
+                return v
+        if resp['mismatches']:
+            m = resp['mismatches'][0]
+            return {'kind': 'result-depends-on-call-history', 'hex': case['input']['hexes'][m[0]], 'first': m[1], 'later': m[2],
+                    'pass': m[3], 'gen': gen}
+        if resp['alive_changed']:
+            return {'kind': 'earlier-result-changed-by-later-call', 'hex': case['input']['hexes'][resp['alive_changed'][0]], 'gen': gen}
+        # the same file decoded as an individual case in another process with another history
+        for i, h in enumerate(case['input']['hexes']):
+            for fl in range(8):
+                inp = {'hex': h, 'file': bool(fl & 1)}
+                if fl & 2:
+                    inp['repeat'] = True
+                if fl & 4:
+                    inp['twostep'] = True
+                k = case_key({'op': 'bytes', 'input': inp})
+                other = _CACHE.get(k)
+                if other and 'res' in other:
+                    a, b = resp['results'][i], other['res']
+                    if (a[0], a[1] if a[0] == 'EXC' else '') != (b[0], b[1] if b[0] == 'EXC' else '') or \
+                            (a[0] == 'OK' and a[3] != _digest(b)):
+                        if not ('MemoryError' in str(a[1]) or (b[0] == 'EXC' and 'MemoryError' in b[2])):
+                            return {'kind': 'result-differs-between-processes', 'hex': h, 'in_group': a[:2], 'alone': b[:2] if b[0] == 'EXC' else ['OK'], 'gen': gen}
+        return None
     res = resp['res']
     inv = pm_inv_py(resp['pm']) if resp.get('parsed') else None
     neg_res = bool(resp.get('parsed') and resp['pm'][0] <= 0)
+    if resp.get('state'):
+        return {'kind': 'state-or-aliasing', 'what': resp['state'], 'gen': gen, 'op': case['op']}
     if case['op'] == 'pm':
         if not inv[2]:
             return None     # outside the theorem's hypothesis; only model agreement is checked
@@ -1169,6 +1477,20 @@ def oracle(case, io):
     v = _statement(res, gen, 'bytes', neg_res, 'bytes')
     if v:
         return v
+    rres = resp.get('repeat')
+    if rres is not None and rres != 'same':
+        v = _statement(rres, gen, 'bytes', neg_res, 'repeat')
+        if v:
+            return v
+        if _res_canon(rres) != _res_canon(res) and not any(r[0] == 'EXC' and 'MemoryError' in r[2] for r in (res, rres)):
+            return {'kind': 'second-call-differs', 'gen': gen, 'first': res[:2] if res[0] == 'EXC' else ['OK'],
+                    'second': rres[:2] if rres[0] == 'EXC' else ['OK']}
+    two = resp.get('twostep')
+    if two and two[0] != 'EXPORT-FAILED':
+        for r, variant in zip(two, ('reexported-bytes', 'reexported-object')):
+            v = _statement(r, gen, 'bytes', False, variant)
+            if v:
+                return v
     fres = resp.get('file')
     if fres is not None and fres != 'same':
         v = _statement(fres, gen, 'bytes', neg_res, 'file')
@@ -1193,8 +1515,8 @@ def oracle(case, io):
 
 
 def nontrivial(case, io):
-    if case['op'] == 'pm':
-        return True
+    if case['op'] in ('pm', 'order'):
+        return io[0] != 'RESOURCE'
     if io[0] == 'PARSED':
         resp = _response(case)
         pm = resp['pm']
@@ -1210,6 +1532,11 @@ def _shr(case):
 
 
 def shrink(case):
+    if case['op'] == 'order':
+        hx = case['input']['hexes']
+        for i in range(len(hx)):
+            yield {'op': 'order', 'gen': 'order-shrunk', 'input': {'hexes': hx[:i] + hx[i + 1:], 'seed': case['input']['seed']}}
+        return
     if case['op'] == 'bytes':
         b = bytes.fromhex(case['input']['hex'])
         n = len(b)
@@ -1218,7 +1545,7 @@ def shrink(case):
             for i in range(0, n, step):
                 c = b[:i] + b[i + step:]
                 if c != b:
-                    yield {'op': 'bytes', 'gen': _shr(case), 'input': {'hex': c.hex(), 'file': case['input'].get('file', False)}}
+                    yield {'op': 'bytes', 'gen': _shr(case), 'input': dict(case['input'], hex=c.hex())}
             if step == 1:
                 break
             step //= 2
@@ -1238,7 +1565,7 @@ def shrink(case):
 
 
 def extra_evidence():
-    outcomes, ctor_exc, resource, obs = {}, {}, {}, {}
+    outcomes, ctor_exc, resource, obs, extra = {}, {}, {}, {}, {}
 
     def upd(name, v):
         lo, hi = obs.get(name, (v, v))
@@ -1248,8 +1575,19 @@ def extra_evidence():
         if 'resource' in r:
             resource[r['resource']] = resource.get(r['resource'], 0) + 1
             continue
+        if r.get('op') == 'order':
+            extra['order_groups'] = extra.get('order_groups', 0) + 1
+            extra['order_files_decoded_3x'] = extra.get('order_files_decoded_3x', 0) + len(r['results'])
+            continue
         if 'res' not in r:
             continue
+        for f in ('file', 'repeat', 'twostep'):
+            if f in r:
+                extra[f + '_cases'] = extra.get(f + '_cases', 0) + 1
+        if r.get('twostep') and r['twostep'][0] == 'EXPORT-FAILED':
+            extra['twostep_export_failed:' + r['twostep'][1]] = extra.get('twostep_export_failed:' + r['twostep'][1], 0) + 1
+        if r.get('parsed'):
+            extra['object_conversions_repeated_and_argument_compared'] = extra.get('object_conversions_repeated_and_argument_compared', 0) + 1
         res = r['res']
         key = r.get('op', '?') + ':' + (res[1] if res[0] == 'EXC' else 'OK')
         outcomes[key] = outcomes.get(key, 0) + 1
@@ -1277,6 +1615,7 @@ def extra_evidence():
                     upd('cc_value', c[2])
     return {
         'c16_cases_by_generator': dict(sorted(_GENS.items())),
+        'c16_state_and_variant_checks': dict(sorted(extra.items())),
         'c16_outcomes_by_op_and_exception_class': outcomes,   # op pm includes objects OUTSIDE pm_inv (foreign exceptions expected there)
         'c16_constructor_exception_classes': ctor_exc,
         'c16_resource_cases': resource,
